@@ -104,7 +104,18 @@ func (g *Gen) Time() time.Time {
 			}
 			g.mark("time.wholesecond")
 		}
-		return time.Unix(sec, ms*1e6)
+		t := time.Unix(sec, ms*1e6)
+		// the same instant seen from another zone (a timestamp is an instant: the zone must not matter,
+		// not even where the local year differs from the UTC year at the edges of the range)
+		switch g.R.Intn(6) {
+		case 0:
+			t = t.In(time.FixedZone("east", 14*3600))
+		case 1:
+			t = t.In(time.FixedZone("west", -12*3600))
+		case 2:
+			t = t.UTC()
+		}
+		return t
 	}
 }
 
